@@ -404,8 +404,16 @@ class Val(Ty):
     def assume_wf(self, term):
         _c().assume(z3.And(self.dt.tag(term) >= 0, self.dt.tag(term) < len(self.variants)))
 
+    wf_fn = None        # optional typing invariant of the value class: fn(dt, term) -> z3 Bool
+
     def wrap(self, term, loc=None):
         term = z3.simplify(term)
+        if self.wf_fn is not None:
+            c = _c()
+            key = ("valwf", self.name, term.get_id())
+            if key not in c._pool_seen:
+                c._pool_seen.add(key)
+                c.assume(self.wf_fn(self.dt, term))
         if len(self.variants) == 1:
             k = 0
         else:
